@@ -2,7 +2,8 @@
 EXTENDS Argv
 VocabFull == {"encrypt", "enc", "decrypt", "dec", "key", "generate", "gen", "change-pass", "extract-pub", "password", "pass",
               "-t", "--to", "-f", "-o", "-k", "--keyring", "--env-pass", "-h", "--help", "-v", "--version",
-              "x", "", "--", "-", "--bogus", "-to", "=", "NOFILE"}
+              "x", "", "--", "-", "--bogus", "-to", "=", "NOFILE", "<NONUTF8>"}
+\* "<NONUTF8>" stands for a word that is not valid UTF-8 (a file name from a Latin-1 locale); the harness puts the bytes in
 VocabSmall == {"encrypt", "dec", "key", "gen", "change-pass", "extract-pub", "pass", "-t", "-f", "-o", "-k", "--env-pass",
-               "-h", "-v", "x", "", "--", "--bogus"}
+               "-h", "-v", "x", "", "--", "--bogus", "<NONUTF8>"}
 =============================================================================
